@@ -33,8 +33,8 @@ ASSUMPTIONS = ["CRC-32 detects every single-bit error and every burst of <= 32 b
                "call; the largest ratio measured on valid inputs is 2.5 lines per byte; deliberately crafted "
                "decompression bombs are not generated",
                "python-snappy absent: snappy paths raise NotImplementedError, which counts as an exception"]
-REACH_MIN = {"bit_flips": {"quick": 100000, "thorough": 3000000}, "bursts": {"quick": 8000, "thorough": 200000},
-             "truncations": {"quick": 20000, "thorough": 600000}, "arbitrary": {"quick": 15000, "thorough": 600000},
+REACH_MIN = {"bit_flips": {"quick": 100000, "thorough": 2000000}, "bursts": {"quick": 8000, "thorough": 200000},
+             "truncations": {"quick": 20000, "thorough": 300000}, "arbitrary": {"quick": 15000, "thorough": 600000},
              "hostile_counts": {"quick": 4000, "thorough": 100000},
              "consumer_oversized_runs": {"quick": 40, "thorough": 1000}}
 
